@@ -130,6 +130,55 @@ def check_standalone(case):
                    expected={"lat": lib[0], "lon": lib[1]}, observed={"lat": got[0], "lon": got[1], "diff_deg": d})
 
 
+def _hp_numeric(v):
+    """Degrees denoted by a D.MMSSssss float, fields read from its 13-decimal rendering (a seconds field of 60.0 from a
+    missing carry still denotes the right angle numerically, so it is not rejected here)."""
+    txt = "%.13f" % abs(v)
+    ip, fp = txt.split(".")
+    deg = int(ip) + int(fp[:2]) / 60.0 + float(fp[2:4] + "." + fp[4:]) / 3600.0
+    return -deg if v < 0 else deg
+
+
+def check_standalone_batch(case):
+    """The batch path itself: a CSV of (point, zone, easting, northing) rows through grid2geoio, output parsed back."""
+    import csv
+    import os
+    cv = repo.mod("geodepy.convert")
+    sa = standalone()
+    rows = []
+    for i, r in enumerate(case["rows"]):
+        T.grid_range_or_discard(r["east"], r["north"])
+        lib = cv.grid2geo(r["zone"], r["east"], r["north"], "south")
+        T.grid_domain_or_discard(dict(r, prj="utm", ell="grs80"), lib[0], lib[1])
+        rows.append((("P%d" % i), r, lib))
+    fn = os.path.join(os.getcwd(), "batch_in.csv")
+    with open(fn, "w", newline="") as fh:
+        w = csv.writer(fh)
+        for name, r, lib in rows:
+            w.writerow([name, r["zone"], repr(r["east"]), repr(r["north"])])
+    out = fn[:-4] + "_out.csv"
+    if os.path.exists(out):
+        os.remove(out)
+    sa.grid2geoio(fn)
+    if not os.path.exists(out):
+        raise Fail("the batch converter did not write <input>_out.csv", observed=os.listdir(os.getcwd()))
+    with open(out, newline="") as fh:
+        got = list(csv.reader(fh))
+    os.remove(out)
+    os.remove(fn)
+    if len(got) != len(rows):
+        raise Fail("the batch converter did not write one output row per input row", expected=len(rows), observed=len(got))
+    for (name, r, lib), g in zip(rows, got):
+        if g[0] != name:
+            raise Fail("the batch converter changed the point identifier / row order", expected=name, observed=g)
+        lat, lon = _hp_numeric(float(g[1])), _hp_numeric(float(g[2]))
+        d = max(abs(lat - lib[0]), abs(lon - lib[1]))
+        metric("standalone_batch_diff_deg", d)
+        if not d <= 1e-10:
+            raise Fail("the batch converter's output (degrees.minutes-seconds) differs from the library by more than 1e-10 degrees",
+                       expected={"lat": lib[0], "lon": lib[1]}, observed={"row": g, "lat": lat, "lon": lon, "diff_deg": d})
+
+
 def check_band_rejected(case):
     cv = repo.mod("geodepy.convert")
     try:
@@ -183,6 +232,10 @@ SUBCHECKS = [
     SubCheck("standalone_differential", check_standalone, strategy=_utm_grs80_south, nontrivial=_nt_grid,
              classes=_cls_grid, quick=2000, thorough=160000, shards_quick=2, shards_thorough=8,
              rule="Standalone/mga2gda.grid2geo vs library, southern UTM / GRS80, 1e-10 deg"),
+    SubCheck("standalone_batch_file", check_standalone_batch,
+             strategy=st.lists(_utm_grs80_south, min_size=1, max_size=5).map(lambda rows: {"rows": rows}),
+             nontrivial=lambda c: any(_nt_grid(r) for r in c["rows"]), quick=300, thorough=20000, shards_quick=2, shards_thorough=8,
+             rule="CSV rows through Standalone/mga2gda.grid2geoio: output rows parse back to the library's latitude / longitude within 1e-10 deg"),
     SubCheck("band_rejected", check_band_rejected, strategy=_outside_band, quick=200, thorough=2000, shards_thorough=1,
              rule="latitudes outside [-80, 84] raise ValueError (stated in the quantifier)"),
 ]
